@@ -88,7 +88,7 @@ RULE = ("case = one history: [different per-run prefix: foreign numpy/random see
         "CHAIN BLOCK (every generated history, before the final probes): [set_random_seed(s), sample / Observable.sample(k, num, initial_state=X)] four times with the "
         "same s on the same unchanged object, X = A, B (A with one bit flipped), A, A with overwrite=True; k = history index mod 3 (k = 0 returns the start chains "
         "themselves): calls 1 and 3 are the same operation at the same stream position (must be bit-equal), call 2 differs only in the CONTENT of initial_state.  "
-        "FORWARDED API: the public methods of BinaryRBM / PurificationRBM called on the state (NeuralStateBase.__getattr__): evaluators as eval fwd_<name>, "
+        "fit: data as numpy.ndarray on 30 %, k = 0 on 10 %.  FORWARDED API: the public methods of BinaryRBM / PurificationRBM called on the state (NeuralStateBase.__getattr__): evaluators as eval fwd_<name>, "
         "state.gibbs_steps as batchGradient:fwd.  ENVIRONMENTS: corpus cases are re-executed with the three runner processes INSIDE each process-global environment")
 
 SEED_LO, SEED_HI = -2 ** 63, 2 ** 64  # torch.manual_seed accepts LO <= s < HI (established on the clean tree, re-measured below)
@@ -528,6 +528,10 @@ def gen_lib_op(rng, slot, cons, files, want=None):
             op["sched"] = True
         if rng.random() < 0.15:
             op["time"] = True
+        if rng.random() < 0.3:
+            op["np_data"] = True  # data as numpy.ndarray (the documented type)
+        if rng.random() < 0.1:
+            op["k"] = 0           # no Gibbs step: the negative phase is the start chains themselves (no Bernoulli draw)
         return op
     if c < 0.58:
         w = forced or rng.choice(W["eval"])
@@ -858,6 +862,8 @@ def check_case(ctx, case, impl):
             ctx.count(f"seed_class={seed_class(o['s'])}/cpu={o['cpu']}" + ("/gpu" if o.get("gpu") else ""))
         if o["t"] == "fit":
             ctx.count("fit_optimizer=" + o["optimizer"])
+            ctx.count("fit_data=" + ("numpy.ndarray" if o.get("np_data") else "torch.Tensor"))
+            ctx.count("fit_k=" + ("0" if o["k"] == 0 else ">=1"))
             ctx.count("fit_negB=" + ("default" if not o["negB"] else ("same" if o["negB"] == o["posB"] else "different")))
     ctx.count("histories")
     for rec in impl[0]["records"]:  # the forms the runner process actually handed over (run 1)
